@@ -9,6 +9,7 @@ require (
 )
 
 require (
+	codeberg.org/go-latex/latex v0.1.0 // indirect
 	github.com/BurntSushi/freetype-go v0.0.0-20160129220410-b763ddbfe298 // indirect
 	github.com/BurntSushi/graphics-go v0.0.0-20160129215708-b43f31a4a966 // indirect
 	github.com/BurntSushi/xgb v0.0.0-20210121224620-deaf085860bc // indirect
@@ -24,8 +25,10 @@ require (
 	github.com/srwiley/scanx v0.0.0-20190309010443-e94503791388 // indirect
 	github.com/tdewolff/minify/v2 v2.23.0 // indirect
 	github.com/tdewolff/parse/v2 v2.7.22 // indirect
+	github.com/wcharczuk/go-chart/v2 v2.1.2 // indirect
 	golang.org/x/net v0.38.0 // indirect
 	golang.org/x/text v0.24.0 // indirect
+	gonum.org/v1/plot v0.16.0 // indirect
 	modernc.org/knuth v0.5.4 // indirect
 	modernc.org/token v1.1.0 // indirect
 	star-tex.org/x/tex v0.6.0 // indirect
